@@ -35,7 +35,7 @@ def floors(tier):
     return {"decoded": 20000, "M1.recounts": 20000, "M2.writes": 20000,
             "M3.next_atom_state": 20000, "set:transitions": 20,
             "rdkit_judged": 200, "g2.atoms>=50": 20, "g2.rings>=10": 20,
-            "tables": 20, "f1_witness_seen": 1}
+            "tables": 20, "f1_witness_seen": 1, "table_walk_steps": 300}
 
 
 def _in_domain(tokens, table):
@@ -167,6 +167,28 @@ def run(ctx):
                     ctx.count("g2.multifragment")
                 if m.max_depth >= 5:
                     ctx.count("g2.depth>=5")
+
+    # ---- walks through related tables: the same atom kinds are decoded again after every single-edit table change
+    for w in range(12 if quick else 150):
+        t = tablegen.any_table(rng)
+        try:
+            j.set_table("walk", t)
+        except ValueError:
+            continue
+        g = LiveGen(j.table, rng)
+        strings = [g.string(rng.choice([1, 2]), rng.choice([10, 40, 120])) for _ in range(6)]
+        # plus strings that saturate each listed kind: [X] followed by many substituents
+        for k in [kk for kk in j.table if kk != "?"][:8]:
+            strings.append("[%s]" % k + "[Branch1][C][F]" * rng.choice([3, 7, 13]) + "[=O]")
+        for step in range(6):
+            t = tablegen.neighbour_table(rng, t)
+            try:
+                j.set_table("walk", t)
+            except ValueError:
+                break
+            for x in strings:
+                j.one(x, "table-walk")
+            ctx.count("table_walk_steps")
 
     # ---- G3: mutated encoder outputs of dataset molecules
     data = scopes.dataset_smiles(400 if quick else 4000)
